@@ -30,15 +30,149 @@ import vcommon as V, circ, designgen as G
 
 CID = "C10"
 WORK = V.BUILD / "work" / CID
-HANDS = ["h_mem_rmw", "h_mem_condwrite", "h_mem_multi", "h_mem_wrorder", "h_retime_enable", "h_retime_intersect", "h_retime_hint", "h_negreg",
+HANDS = ["h_clockfam0", "h_clockfam1", "h_clockfam2", "h_clockfam3", "h_mem_rmw", "h_mem_condwrite", "h_mem_multi", "h_mem_wrorder", "h_retime_enable", "h_retime_intersect", "h_retime_hint", "h_negreg",
          "h_hier_partition", "h_hier_entity", "h_small_hier", "h_multiclock", "h_fifo", "h_dcfifo", "h_wide_logic"]
 OMODES = ["single", "entity", "partition"]
 TOOLS = ["default", "ghdl", "vivado", "quartus"]
 KNOWN_PARTITION = "partition-file-order"
+HEAP_MODES = ["unperturbed construction (plain malloc)",
+              "operator new randomly perturbed during construction (second-of-two candidates, dummies) + holes punched before it",
+              "address-sorted pools per 16 byte size class, handed out in DESCENDING address order",
+              "address-sorted pools per 16 byte size class, handed out in ASCENDING address order",
+              "address-sorted pools per 16 byte size class, handed out in random order"]
 MAX_CERT_INPUT_BITS = 8
 MAX_CERT_REG_BITS = 12
 # files whose content is (only) a list of source files in the order of AST::getSourceFiles()
 LISTFILES = ("files.txt", "files_sim.txt", "export/standalone.txt", "export/project.txt")
+
+
+# ---------------------------------------------------------------------------------------------------
+# Static audit of every StableCompare<> specialisation in the CURRENT source tree (a lint, fail closed):
+# "a stable comparator never orders by address".  Inside the body of operator() a pointer - the argument
+# itself when the key type is a pointer, or a member of the key struct declared with `*` - may only be
+#   compared with nullptr, dereferenced as `->getId()`, or handed to another stable comparator
+#   (a local `StableCompare<..> name;` object, `StableCompare<..>()(..)`, stableCompareWithId, stableCompareNodes);
+# std::tie / std::less / <=> / casts to integers / taking the address of an argument are rejected outright.
+# Anything the scanner cannot parse counts as a finding.
+# ---------------------------------------------------------------------------------------------------
+def _strip_comments(t):
+    t = re.sub(r"/\*.*?\*/", " ", t, flags=re.S)
+    return re.sub(r"//[^\n]*", " ", t)
+
+
+def _balanced(t, i, op="{", cl="}"):
+    """t[i] == op; returns index after the matching close"""
+    depth = 0
+    for j in range(i, len(t)):
+        if t[j] == op:
+            depth += 1
+        elif t[j] == cl:
+            depth -= 1
+            if depth == 0:
+                return j + 1
+    return -1
+
+
+def _pointer_members(alltext, typename):
+    """names of the members of struct/class <typename> whose declaration contains '*'; None if not found"""
+    base = typename.split("::")[-1].strip()
+    m = re.search(r"\b(?:struct|class)\s+" + re.escape(base) + r"\b[^;{]*\{", alltext)
+    if not m:
+        return None
+    end = _balanced(alltext, m.end() - 1)
+    body = alltext[m.end():end - 1]
+    # drop nested braces (inline functions)
+    flat, depth = [], 0
+    for ch in body:
+        if ch == "{":
+            depth += 1
+        elif ch == "}":
+            depth -= 1
+        elif depth == 0:
+            flat.append(ch)
+    res = set()
+    for decl in "".join(flat).split(";"):
+        if "(" in decl:
+            continue
+        mm = re.search(r"\*\s*(?:const\s+)?(\w+)\s*(?:=[^,]*)?$", decl.strip())
+        if mm and "*" in decl:
+            res.add(mm.group(1))
+    return res
+
+
+def audit_comparators(repo):
+    src = {}
+    for root, _, files in os.walk(os.path.join(str(repo), "source", "gatery")):
+        for f in files:
+            if f.endswith((".h", ".cpp")):
+                p = os.path.join(root, f)
+                try:
+                    src[p] = _strip_comments(open(p, errors="replace").read())
+                except OSError:
+                    pass
+    alltext = "\n".join(src.values())
+    found, findings = [], []
+    helper_bodies = {}
+    for p, t in src.items():
+        for m in re.finditer(r"\b(stableCompareWithId|stableCompareNodes)\s*\(([^)]*)\)\s*\{", t):
+            end = _balanced(t, m.end() - 1)
+            helper_bodies[m.group(1)] = (p, m.group(2), t[m.end():end - 1])
+    items = []   # (file, key type, arg names, body)
+    for p, t in src.items():
+        # in-class definitions:  struct [ns::]StableCompare<KEY> { bool operator()(A lhs, B rhs) const { ... } };
+        for m in re.finditer(r"struct\s+(?:[\w:]*::)?StableCompare\s*<([^{;]*?)>\s*\{", t):
+            end = _balanced(t, m.end() - 1)
+            cls = t[m.end():end - 1]
+            key = m.group(1).strip()
+            om = re.search(r"operator\s*\(\s*\)\s*\(([^)]*)\)\s*const\s*(\{|;)", cls)
+            if not om:
+                if "operator" in cls:
+                    findings.append(f"{p}: StableCompare<{key}>: operator() not parsed")
+                continue      # the generic template without operator()
+            if om.group(2) == "{":
+                b_end = _balanced(cls, om.end() - 1)
+                items.append((p, key, om.group(1), cls[om.end():b_end - 1]))
+        # out-of-class definitions:  bool StableCompare<KEY>::operator()(...) const { ... }
+        for m in re.finditer(r"StableCompare\s*<([^{;]*?)>\s*::\s*operator\s*\(\s*\)\s*\(([^)]*)\)\s*const\s*\{", t):
+            end = _balanced(t, m.end() - 1)
+            items.append((p, m.group(1).strip(), m.group(2), t[m.end():end - 1]))
+    for name, (p, args, body) in helper_bodies.items():
+        items.append((p, "Type*", args, body))
+    for p, key, args, body in items:
+        an = [a.strip().split()[-1].lstrip("&*") for a in args.split(",") if a.strip()]
+        rel = os.path.relpath(p, str(repo))
+        tag = f"{rel}: StableCompare<{key}>" if key != "Type*" else f"{rel}: helper"
+        found.append(tag)
+        if len(an) != 2:
+            findings.append(f"{tag}: argument list not parsed"); continue
+        key_is_ptr = key.rstrip().endswith("*") or key == "Type*" or "NodeType" in key
+        pm = set()
+        if not key_is_ptr:
+            pm = _pointer_members(alltext, key)
+            if pm is None:
+                findings.append(f"{tag}: key type definition not found"); continue
+        for bad in ("std::tie", "std::less", "std::greater", "<=>", "reinterpret_cast", "uintptr_t", "intptr_t", "std::hash", "(size_t)", "(uint64_t)"):
+            if bad in body:
+                findings.append(f"{tag}: uses {bad}")
+        for a in an:
+            if re.search(r"&\s*" + re.escape(a) + r"\b(?!\s*\.)", body):
+                findings.append(f"{tag}: takes the address of argument {a}")
+        stable_objs = set(re.findall(r"StableCompare\s*<[^;]*?>\s+(\w+)\s*;", body)) | {"stableCompareWithId", "stableCompareNodes"}
+        # pointer-valued expressions of the arguments
+        pexprs = ([(re.escape(a), a) for a in an] if key_is_ptr
+                  else [(re.escape(a) + r"\s*\.\s*" + re.escape(mb), f"{a}.{mb}") for a in an for mb in pm])
+        # remove the allowed contexts, then no pointer expression may remain
+        chk = body
+        for o in stable_objs:
+            chk = re.sub(r"\b" + re.escape(o) + r"\s*\([^()]*\)", " OK ", chk)
+        chk = re.sub(r"StableCompare\s*<[^;]*?>\s*\(\s*\)\s*\([^()]*\)", " OK ", chk)
+        for pe, shown in pexprs:
+            chk = re.sub(pe + r"\s*->\s*getId\s*\(\s*\)", " ID ", chk)
+            chk = re.sub(pe + r"\s*[!=]=\s*nullptr", " NULLTEST ", chk)
+            chk = re.sub(r"nullptr\s*[!=]=\s*" + pe, " NULLTEST ", chk)
+            if re.search(r"(?<![\w.>])" + pe + r"(?![\w])(?!\s*\.)", chk):
+                findings.append(f"{tag}: pointer `{shown}` used outside nullptr test / ->getId() / stable comparator")
+    return dict(comparators=found, findings=sorted(set(findings)))
 
 
 def have_setarch():
@@ -77,7 +211,68 @@ def gen_programs(seed, n):
             body += ["in xma 2", "in xmd 3", "inb xmw", f"mem M{i} 4 3 zero", f"memwrite M{i} xma xmd xmw",
                      f"memread xmr M{i} xma", "reg xmq xmr", "out om xmq"]
         progs.append((f"g{i}", [lines[0]] + extra + body, used))
+    for i in range(max(6, n // 4)):
+        progs.append(gen_clockfam(seed, i))
     return progs
+
+
+def gen_clockfam(seed, i):
+    """Design family for the exporter's grouping of registers into clocked processes: ONE area holds registers
+    (with and without reset value) and sometimes a memory of several clocks that share clock pin and/or reset
+    pin in random combinations (derived clocks: other reset name / polarity / kind / trigger edge; named derived
+    clocks and root clocks: other clock pin).  Creation order of the clocks and order of use are unrelated."""
+    import random
+    r = random.Random(seed * 700001 + i)
+    did = f"k{i}"
+    L = [f"design {did}", f"omode {OMODES[i % 3]}", f"tool {TOOLS[(i // 3) % 4]}"]
+    ncl = r.choice([2, 3, 3, 4, 5, 6])
+    names = []
+    for j in range(ncl):
+        opts = []
+        if r.random() < 0.75:
+            opts.append("rstname=" + r.choice(["rst_a", "rst_b", "rst_c"]))
+        if r.random() < 0.3:
+            opts.append("active=low")
+        k = r.random()
+        if k < 0.2:
+            opts.append("rst=async")
+        elif k < 0.3:
+            opts.append("rst=none")
+        if r.random() < 0.25:
+            opts.append("trig=falling")
+        if r.random() < 0.15:
+            L.append(f"rclock c{j} {r.choice([50000000, 75000000, 100000000])} " + " ".join(opts))
+        else:
+            if r.random() < 0.15:
+                opts.append(f"name=pin_c{j}")
+            parent = r.choice(["base"] * 3 + names) if names else "base"
+            L.append(f"dclock c{j} {parent} " + " ".join(opts))
+        names.append(f"c{j}")
+    wrap = r.random() < 0.6
+    if wrap:
+        L.append("area fam entity")
+    order = names[:]
+    r.shuffle(order)
+    if r.random() < 0.5:
+        order.append(r.choice(names))     # a second, separate chain on one of the clocks
+    for n, c in enumerate(order):
+        w = r.choice([1, 2, 3])
+        rv = "".join(r.choice("01") for _ in range(w))
+        L += [f"clk {c}", f"in i{n} {w}"]
+        L.append(f"reg q{n} i{n}" + (f" rst {rv}" if r.random() < 0.8 else ""))
+        L.append(f"not n{n} q{n}")
+        L.append(f"reg p{n} n{n}" + (f" rst {rv[::-1]}" if r.random() < 0.4 else ""))
+        L.append(f"bin x{n} xor p{n} q{n}")
+        res = f"x{n}"
+        if r.random() < 0.25:
+            L += [f"inb w{n}", f"slice a{n} x{n} 0 1", f"mem M{n} 2 {w} zero", f"memwrite M{n} a{n} p{n} w{n}", f"memread m{n} M{n} a{n}",
+                  f"reg mq{n} m{n}", f"bin y{n} xor mq{n} x{n}"]
+            res = f"y{n}"
+        L += [f"out o{n} {res}", "endclk"]
+    if wrap:
+        L.append("endarea")
+    L += ["in bx 2", "reg bq bx rst 01", "out bo bq"]
+    return (did, L, ["clockfam"])
 
 
 def sha(path):
@@ -162,6 +357,10 @@ def addr_info(d):
                 info["nodes"] = int(p[1]); info["inversions"] = int(p[3])
             elif p[0] == "order":
                 info["order"] = p[1:]
+            elif p[0] == "clocks":
+                info["clocks"] = int(p[1]); info["clock_inversions"] = int(p[3])
+            elif p[0] == "clockorder":
+                info["clockorder"] = p[1:]
             elif p[0] == "allocs":
                 info["allocs"] = int(p[1]); info["swapped"] = int(p[3]); info["dummies"] = int(p[5])
     except OSError:
@@ -192,6 +391,7 @@ def main():
     res = V.check_properties(CID)
     rep.add_proof(res)
     forb = V.scan_forbidden()
+    audit = audit_comparators(V.REPO)
     known, _ = V.known_findings(CID)
     known_partition = any(k.startswith(KNOWN_PARTITION) for k in known)
     thorough = rep.tier == "thorough"
@@ -199,7 +399,7 @@ def main():
 
     # ---- designs -------------------------------------------------------------------------------
     ngen = 1500 if thorough else 40
-    nbuilds = 3 if thorough else 2
+    nbuilds = 5 if thorough else 4
     nshuffle = 5 if thorough else 3
     cycles = 24 if thorough else 12
     budget = 4000000 if thorough else 400000
@@ -242,10 +442,10 @@ def main():
     for c, pr in zip(cfgs, procs):
         for b in range(nbuilds):
             recipe[f"{c[0]}.{b}"] = dict(process=c[5], command=pr["cmd"], build_index=b,
-                                        heap="unperturbed construction" if b == 0 else "operator new perturbed during construction + holes punched before it")
+                                        heap=HEAP_MODES[b] if b < len(HEAP_MODES) else HEAP_MODES[1])
         if c[0] == "p0":
             for s in range(1, nshuffle + 1):
-                recipe[f"p0.s{s}"] = dict(process=c[5], command=pr["cmd"], shuffles=s, heap="perturbed" if s % 2 == 0 else "unperturbed")
+                recipe[f"p0.s{s}"] = dict(process=c[5], command=pr["cmd"], shuffles=s, heap=HEAP_MODES[s % 5])
 
     ref = "p0.0"
     builds = [f"{c[0]}.{b}" for c in cfgs for b in range(nbuilds) if f"{c[0]}.{b}" != ref]
@@ -414,7 +614,19 @@ def main():
 
     # ---- the perturbation must have had an effect, otherwise the differential has no power ----------
     frac_changed = {b: addr_changed[b] / max(1, addr_total) for b in builds}
-    weak = [b for b in builds if not b.endswith(".0") and frac_changed[b] < 0.8]
+    # (the ascending-pool build .3 may legitimately coincide with a fresh plain heap; it is the mirror image of .2)
+    weak = [b for b in builds if b.rsplit(".", 1)[1] in ("1", "2", "4") and frac_changed[b] < 0.8]
+    # Clock objects: the descending and the ascending pool build must order them differently
+    clk_designs = clk_mirrored = 0
+    clk_orders = 0
+    for d in designs:
+        a2, a3 = addr_info(out / "p0.2" / d), addr_info(out / "p0.3" / d)
+        if a2.get("clocks", 0) >= 3 and a3.get("clocks", 0) >= 3:
+            clk_designs += 1
+            clk_mirrored += a2["clockorder"] != a3["clockorder"]
+            clk_orders += len({tuple(addr_info(out / b / d).get("clockorder", [])) for b in [ref] + builds})
+    if clk_designs and clk_mirrored < 0.9 * clk_designs and not replay:
+        V.infra_error(f"heap perturbation does not reorder Clock objects: descending/ascending pool builds order the clocks differently in only {clk_mirrored}/{clk_designs} designs")
     if weak and not replay:
         V.infra_error(f"heap perturbation ineffective: relative node address order equals the reference build in too many designs for {weak}: {frac_changed}")
 
@@ -439,6 +651,7 @@ def main():
         "a pointer-order dependence that none of the sampled heap layouts exposes is not detected.")
     rep.cov["programs"] = len(designs)
     rep.cov["designs_generated"] = len([1 for d in designs if d.startswith("g")])
+    rep.cov["designs_generated_clock_family"] = len([1 for d in designs if d.startswith("k")])
     rep.cov["designs_hand_written"] = len(hands)
     rep.cov["designs_corpus"] = len([1 for d in designs if d.startswith("c_")])
     rep.cov["designs_skipped_not_constructible"] = [f"{d}: {why}" for d, why in skipped][:10]
@@ -454,6 +667,9 @@ def main():
     rep.cov["shuffle_exports_textually_equal"] = f"{shuf_export_equal}/{shuf_export_cmp}"
     rep.cov["netlist_dump_differs_between_plain_builds"] = netdump_differs
     rep.cov["fraction_of_designs_with_changed_address_order"] = {b: round(v, 2) for b, v in frac_changed.items()}
+    rep.cov["designs_with_3_or_more_clocks"] = clk_designs
+    rep.cov["of_those_clock_address_order_differs_between_descending_and_ascending_build"] = clk_mirrored
+    rep.cov["mean_distinct_clock_address_orders_per_such_design"] = round(clk_orders / clk_designs, 1) if clk_designs else 0
     rep.cov["address_inversion_fraction_min_median_max"] = (
         [min(inv_hist), sorted(inv_hist)[len(inv_hist) // 2], max(inv_hist)] if inv_hist else [])
     rep.cov["traces_validated_against_impl"] = tie_ok
@@ -468,6 +684,9 @@ def main():
     rep.cov["designs_outside_single_clock_model_multiclock_or_memory"] = model_skipped_multiclock
     rep.cov["disagreements_checked"] = len(cert_fail)
     rep.cov["wall_s_harness_processes"] = round(t_run, 1)
+    rep.cov["comparator_audit"] = dict(rule="static scan of every StableCompare<> specialisation (+ stableCompareWithId/stableCompareNodes) of the current tree: "
+                                            "pointers only in nullptr tests, ->getId() or as arguments of another stable comparator; no std::tie/std::less/<=>/integer casts",
+                                       definitions_scanned=audit["comparators"], findings=audit["findings"])
     sd = designs[0]
     rep.cov["samples"] = [
         dict(design=sd, program=prog_of.get(sd), reference=recipe[ref], compared=recipe[builds[0]],
@@ -496,6 +715,10 @@ def main():
         broken.append("proof obligations failed: " + ", ".join(res["failed"]) + " | " + res["log"][-600:])
     if forb:
         broken.append("forbidden constructs: " + "; ".join(forb[:5]))
+    if audit["findings"]:
+        broken.append("comparator audit (a StableCompare specialisation may order by address): " + "; ".join(audit["findings"][:6]))
+    if len(audit["comparators"]) < 8:
+        broken.append(f"comparator audit found only {len(audit['comparators'])} StableCompare definitions (scanner out of date?)")
     if driver is None:
         broken.append("extracted model (C01) no longer builds: " + V.last_model_log[-600:])
     if tie_bad:
